@@ -145,9 +145,11 @@ var $newType = (size, kind, string, named, pkg, exported, constructor) => {
                 typ.len = len;
                 typ.comparable = elem.comparable;
                 typ.keyFor = x => {
-                    return Array.prototype.join.call($mapArray(x, e => {
+                    // Array.from, not $mapArray: for a typed array $mapArray allocates a typed array
+                    // too, which would turn the key strings back into numbers ("NaN$7" -> NaN).
+                    return Array.from(x, e => {
                         return String(elem.keyFor(e)).replace(/\\/g, "\\\\").replace(/\$/g, "\\$");
-                    }), "$");
+                    }).join("$");
                 };
                 typ.copy = (dst, src) => {
                     if (src.length === undefined) {
